@@ -73,17 +73,17 @@ func main() {
 	work := filepath.Join(*root, ".work")
 	os.MkdirAll(filepath.Join(work, "bin"), 0o755)
 	runDir := filepath.Join(work, "run", id+"-"+*tier)
+	alt := ""
 	if *modfile != "" {
-		runDir += "-alt" // mutation trials run against a scratch copy and must not disturb a normal run
+		// mutation trials run against a scratch copy and must not disturb a normal run, nor each other
+		alt = "-alt-" + strings.TrimSuffix(filepath.Base(*modfile), filepath.Ext(*modfile))
+		runDir += alt
 	}
 	os.RemoveAll(runDir)
 	os.MkdirAll(runDir, 0o755)
 
 	// ---- build the worker from the current tree
-	bin := filepath.Join(work, "bin", strings.ToLower(id))
-	if *modfile != "" {
-		bin += "-alt"
-	}
+	bin := filepath.Join(work, "bin", strings.ToLower(id)) + alt
 	args := []string{"build", "-tags", "verif", "-o", bin}
 	if *modfile != "" {
 		args = append(args, "-modfile="+*modfile)
@@ -101,10 +101,7 @@ func main() {
 
 	if id == "C05" {
 		// the CLI tool is one of C05's entry points: build it from the current tree as well
-		cliBin := filepath.Join(work, "bin", "c05-parsefile")
-		if *modfile != "" {
-			cliBin += "-alt"
-		}
+		cliBin := filepath.Join(work, "bin", "c05-parsefile") + alt
 		os.Setenv("VERIF_C05_CLI", cliBin)
 		a := []string{"build", "-o", cliBin}
 		if *modfile != "" {
